@@ -66,7 +66,7 @@ func clientEngine(prop string, gen func(*core.Rng) *KPlan, race bool) *core.Engi
 			"stub": {"kernel audit subsystem (SimKernel reference model with its own UAPI constants)", "socket system calls (SimSocket) or the exported Netlink field (transport 0)",
 				"socket creation / bind / port-id discovery (not exercised)", "clock (synctest virtual time; the 50 ms back-off sleeps are virtual)"},
 		},
-		Assumptions: []string{"the simulated kernel always sends the ACK before the data of a request (kthread reordering of real kernels is outside the property)",
+		Assumptions: []string{"the simulated kernel sends the ACK before the data of a request, except under the 'status reply ahead of its ACK' fault (outside the property's quantifier), where a call may fail but must not return anything the kernel did not send",
 			"NewNetlinkClient (socket/bind/getsockname) and a real kernel are not exercised"},
 	}
 }
